@@ -84,6 +84,63 @@ pub fn run_c01(a: &Args) {
         // the same nodes and edges through the constructor
         constructor_case(&specs, &ops, "C01");
     }
+    // the preset specs and the value constructors every history above is written in terms of
+    if ctx::mine(total) {
+        presets_and_constructors();
+    }
+}
+
+fn presets_and_constructors() {
+    use graphrs::{Edge, GraphSpecs, Node};
+    ctx::case_desc(json!("GraphSpecs presets, Edge and Node constructors"));
+    let fail = |what: &str, detail: Value| ctx::violation(&format!("C01|{}|not-as-named|any", what), &format!("{} does not build what its name says", what), detail);
+    let base = Specs { directed: true, multi: false, self_loops: false, dedupe: Dedupe::Error, missing_create: false, loops_drop: false };
+    let presets: [(&str, GraphSpecs, Specs); 6] = [
+        ("GraphSpecs::directed", GraphSpecs::directed(), base),
+        ("GraphSpecs::undirected", GraphSpecs::undirected(), Specs { directed: false, ..base }),
+        ("GraphSpecs::directed_create_missing", GraphSpecs::directed_create_missing(), Specs { missing_create: true, ..base }),
+        ("GraphSpecs::undirected_create_missing", GraphSpecs::undirected_create_missing(), Specs { directed: false, missing_create: true, ..base }),
+        ("GraphSpecs::multi_directed", GraphSpecs::multi_directed(), Specs { multi: true, self_loops: true, ..base }),
+        ("GraphSpecs::multi_undirected", GraphSpecs::multi_undirected(), Specs { directed: false, multi: true, self_loops: true, ..base }),
+    ];
+    for (name, got, want) in presets {
+        ctx::eval(1);
+        let g = Specs::from_real(&got);
+        if g != want {
+            fail(name, json!({"got": g.label(), "want": want.label()}));
+        }
+    }
+    ctx::eval(6);
+    let e = Edge::<String, i32>::new("b".to_string(), "a".to_string());
+    if e.u != "b" || e.v != "a" || !e.weight.is_nan() || e.attributes.is_some() {
+        fail("Edge::new", json!(format!("{:?}", (&e.u, &e.v, e.weight, e.attributes))));
+    }
+    let w = Edge::<String, i32>::with_weight("b".to_string(), "a".to_string(), -0.0);
+    if w.u != "b" || w.v != "a" || w.weight.to_bits() != (-0.0f64).to_bits() || w.attributes.is_some() {
+        fail("Edge::with_weight", json!(format!("{:?}", (&w.u, &w.v, w.weight, w.attributes))));
+    }
+    let o = w.ordered();
+    if o.u != "a" || o.v != "b" || o.weight.to_bits() != w.weight.to_bits() || o.attributes != w.attributes {
+        fail("Edge::ordered", json!(format!("{:?}", (&o.u, &o.v, o.weight))));
+    }
+    let o2 = o.ordered();
+    if o2.u != "a" || o2.v != "b" {
+        fail("Edge::ordered", json!("an ordered edge was reordered"));
+    }
+    let r = w.reversed();
+    if r.u != "a" || r.v != "b" || r.weight.to_bits() != w.weight.to_bits() || r.attributes != w.attributes {
+        fail("Edge::reversed", json!(format!("{:?}", (&r.u, &r.v, r.weight))));
+    }
+    let n = Node::<String, i32>::from_name("x".to_string());
+    if n.name != "x" || n.attributes.is_some() {
+        fail("Node::from_name", json!(format!("{:?}", (&n.name, n.attributes))));
+    }
+    let n2 = Node::<String, i32>::from_name_and_attributes("x".to_string(), 7);
+    if n2.name != "x" || n2.attributes != Some(7) {
+        fail("Node::from_name_and_attributes", json!(format!("{:?}", (&n2.name, n2.attributes))));
+    }
+    ctx::count("checked:presets-and-constructors");
+    ctx::nontrivial(0xC0157);
 }
 
 /// new_from_nodes_and_edges(nodes, edges, specs) must give the graph that add_nodes followed
@@ -225,6 +282,61 @@ fn weighted_boundary_checks(g: &G, prop: &'static str, weighted: bool, centralit
                         );
                         return;
                     }
+                }
+            }
+        }
+    }
+    // a cut-off search from every source: exactly the entries within the cut-off, at the same
+    // distances (neighbour lists that were rewritten by duplicates must still be walked in full)
+    for s in 0..d.n {
+        let want = oracle::sssp(&d, s, weighted);
+        let mut finite: Vec<f64> = want.iter().copied().filter(|x| *x != INF).collect();
+        finite.sort_by(|a, b| a.partial_cmp(b).unwrap());
+        let src = d.names[s].clone();
+        for cut in [finite[finite.len() / 2], finite[finite.len() - 1]] {
+            ctx::eval(1);
+            if let Ok(Ok(map)) = guard("dijkstra::single_source", || dijkstra::single_source(g, weighted, src.clone(), None, Some(cut), false, false)) {
+                for t in 0..d.n {
+                    let got = map.get(&d.names[t]).map(|i| i.distance);
+                    let ok = match got {
+                        None => want[t] == INF || want[t] > cut,
+                        Some(x) => want[t] <= cut && x == want[t],
+                    };
+                    if !ok {
+                        ctx::violation(
+                            &format!("{}|single_source(cutoff)|differs-from-stored-edges|{}", prop, kind),
+                            "a cut-off search differs from the distances computed from get_all_edges() alone",
+                            json!({"source": src, "target": d.names[t], "cutoff": cut, "got": got, "want_from_get_all_edges": if want[t] == INF { Value::Null } else { json!(want[t]) }, "mode": mode,
+                                   "edges": g.get_all_edges().iter().map(|e| json!([e.u, e.v, e.weight])).collect::<Vec<_>>()}),
+                        );
+                        return;
+                    }
+                }
+            }
+        }
+    }
+    if centralities && !g.specs.multi_edges && d.edges.iter().all(|e| !weighted || e.2 >= 0.0) {
+        // eigenvector centrality: when a vector is returned it is (nearly) unmoved by one more
+        // step x -> normalise(x + A^T x) with A taken from get_all_edges() alone
+        let tol = 1e-9;
+        if let Ok(Ok(map)) = guard("eigenvector_centrality", || graphrs::algorithms::centrality::eigenvector::eigenvector_centrality(g, weighted, Some(2000), Some(tol))) {
+            ctx::eval(1);
+            let n = d.n;
+            let x: Vec<f64> = (0..n).map(|i| map.get(&d.names[i]).copied().unwrap_or(f64::NAN)).collect();
+            let mut y = x.clone();
+            for (u, v, w) in &d.edges {
+                let w = if weighted { *w } else { 1.0 };
+                y[*v] += w * x[*u];
+                if !d.directed && u != v {
+                    y[*u] += w * x[*v];
+                }
+            }
+            let norm = y.iter().map(|a| a * a).sum::<f64>().sqrt();
+            if norm > 0.0 && x.iter().all(|a| a.is_finite()) {
+                let moved: f64 = y.iter().zip(x.iter()).map(|(a, b)| (a / norm - b).abs()).sum();
+                if moved > 100.0 * n as f64 * tol + 1e-9 {
+                    ctx::violation(&format!("{}|eigenvector_centrality|not-a-fixed-point-of-the-stored-edges|{}", prop, kind), "the returned vector moves under one more step taken over get_all_edges() alone", json!({"moved_l1": moved, "bound": 100.0 * n as f64 * tol, "mode": mode,
+                        "edges": g.get_all_edges().iter().map(|e| json!([e.u, e.v, e.weight])).collect::<Vec<_>>()}));
                 }
             }
         }
@@ -662,6 +774,26 @@ pub fn run_c09(a: &Args) {
         let m = lock.cands[0].clone();
         let e = check_counts(&lock.g, &m, "C09", wmode != WMode::Wild);
         ctx::eval(e);
+        // the same identities on a derived copy (every weight reset) that then receives duplicates
+        // of its own edges, in both orientations
+        if !m.edges.is_empty() && idx % 2 == 0 && m.nodes.len() <= 12 {
+            let dg = lock.g.set_all_edge_weights(2.0);
+            let dm = model_from_graph(&dg);
+            let mut dl = Lock { g: dg, cands: vec![dm], order_known: false, names: lock.names.clone(), tags: BTreeSet::new(), arcs: std::collections::HashMap::new() };
+            for (i, e) in m.edges.iter().take(3).enumerate() {
+                let (u, v) = if i % 2 == 1 { (&e.v, &e.u) } else { (&e.u, &e.v) };
+                let op = Op::AddEdge(MEdge::new(u, v, 3.0, None));
+                if !step(&mut dl, &op, &mon, i) {
+                    break;
+                }
+            }
+            if dl.cands.is_empty() {
+                dl.cands = vec![model_from_graph(&dl.g)];
+            }
+            let dm2 = dl.cands[0].clone();
+            ctx::eval(check_counts(&dl.g, &dm2, "C09", true));
+            ctx::count("reach:counts-on-derived-copy-after-duplicates");
+        }
         if !m.edges.is_empty() {
             ctx::nontrivial(history_hash(&specs, &ops));
             if ops.len() <= 8 {
